@@ -257,6 +257,11 @@ func (e *Evaluator) evalExpr(expr Expr) (*Cell, error) {
 			return nil, err
 		}
 
+		// a method's receiver is bound on the shared prototype cell, and
+		// evaluating the arguments can rebind it. call a snapshot instead
+		fnCopy := *fn
+		fn = &fnCopy
+
 		args, err := e.evalExprList(exp.Args, true)
 		if err != nil {
 			return nil, err
